@@ -1,5 +1,6 @@
 // Engine for C11 (a setter changes its field and nothing else) and C12 (wire layout), driven by fields.h.
 #pragma once
+#include <algorithm>
 #include <cmath>
 
 #include "driver.h"
@@ -85,6 +86,8 @@ struct Engine
         for (auto& g : cd.fields)
         {
             uint64_t want = extract(raw, g);
+            if (!g.domain.empty() && std::find(g.domain.begin(), g.domain.end(), want) == g.domain.end())
+                continue;  // the image holds a value outside this field's range: what its getter returns is not specified
             uint64_t got = g.get(s);
             if (got != want)
             {
